@@ -832,6 +832,13 @@ func poolElection(tier string) (p pool) {
 	for _, f := range []feat{syncF, asyncF, pvF} {
 		p.dd = append(p.dd, ddScn("transfer-vs-election", 3, ids(3), f, scriptTransferVsElection(), devK(tier), defaultFaults...))
 	}
+	// a MsgTimeoutNow that arrives long after the transfer was given up: the leader has meanwhile
+	// committed entries the transferee does not hold
+	for _, f := range []feat{syncF, asyncF, pvF} {
+		lt := tickSc("late-timeout-now", 3, f, seq(ticks(1, 3), prop(1), holdTo(1, 3), xfer(1, 3), ticks(1, 4), prop(1), prop(1), deliverHeld(1, 3), prop(1), heal(), flush(), ticks(1, 1), prop(1)), devK(tier), int(BTick), 1, int(BDrop), 1, int(BDup), 1)
+		lt.TickNodes = []uint8{1}
+		p.dd = append(p.dd, lt)
+	}
 	for _, f := range []feat{syncF, pvcqF} {
 		p.dd = append(p.dd, ddScn("transfer-twice", 3, ids(3), f, scriptTransferTwice(), devK(tier), defaultFaults...),
 			confSc("transfer-to-removed", f, scriptTransferToRemoved(), devK(tier), defaultFaults...))
